@@ -114,19 +114,22 @@ type cse struct {
 	contentNo int
 	abort     bool
 
-	mu        sync.Mutex
-	fault     *faultSpec
-	hold      *holdSpec // overlap cases: the response of process A that is being held
-	ovShape   string
-	ovAt      int
-	t1Used    bool // the single known-trigger fault (5xx on a verifiable listing) has been injected
-	t1At      int
-	t1Later   bool // verify5xx flavor: the fault hits the pages after the first one (needs pagination)
-	big       bool
-	reported  map[string]bool
-	kinds     map[string]bool
-	nViol     int
-	pushStats map[string]int
+	mu           sync.Mutex
+	fault        *faultSpec
+	hold         *holdSpec // overlap cases: the response of process A that is being held
+	ovShape      string
+	ovAt         int
+	dense        bool // many lockable files + scripted opening with uncommitted removals before scanning hooks
+	denseFiles   []string
+	trigOverride string
+	t1Used       bool // the single known-trigger fault (5xx on a verifiable listing) has been injected
+	t1At         int
+	t1Later      bool // verify5xx flavor: the fault hits the pages after the first one (needs pagination)
+	big          bool
+	reported     map[string]bool
+	kinds        map[string]bool
+	nViol        int
+	pushStats    map[string]int
 }
 
 func copyMap(m map[string]string) map[string]string {
@@ -199,6 +202,13 @@ func (c *cse) pathTrig(def string, paths ...string) string {
 		}
 	}
 	return def
+}
+
+func (c *cse) evTrig(event string) string {
+	if c.trigOverride != "" {
+		return c.trigOverride
+	}
+	return event
 }
 
 // violate reports once per (symptom, subject) and case.
@@ -506,6 +516,9 @@ func (c *cse) checkWriteBits(u *user, event string, files []string) {
 			continue // ownership knowledge of u is ambiguous until the next comparison (push may or may not refresh)
 		}
 		c.count("write_bit_checks", 1)
+		if c.trigOverride != "" {
+			c.count("lockable_files_checked_after_hook_with_missing_file", 1)
+		}
 		if u.absentUnlocked[f] {
 			c.count("write_bit_checks_after_unlock_of_absent_file", 1)
 			delete(u.absentUnlocked, f)
@@ -525,9 +538,9 @@ func (c *cse) checkWriteBits(u *user, event string, files []string) {
 		case !got && hasPath(u.lost, f):
 			c.violate("own-locked-file-readonly", u.lostWhy, u.name+"/"+f, ctx+"; the lock vanished from the local cache when a verifiable listing failed")
 		case got:
-			c.violate("unlocked-file-writable", c.pathTrig(event, f), u.name+"/"+f, ctx)
+			c.violate("unlocked-file-writable", c.pathTrig(c.evTrig(event), f), u.name+"/"+f, ctx)
 		default:
-			c.violate("own-locked-file-readonly", c.pathTrig(event, f), u.name+"/"+f, ctx)
+			c.violate("own-locked-file-readonly", c.pathTrig(c.evTrig(event), f), u.name+"/"+f, ctx)
 		}
 	}
 }
